@@ -21,6 +21,7 @@ pub mod native {
         pub failed: Vec<&'static str>,
         pub passed: usize,
         pub covers_hit: Vec<&'static str>,
+        pub env_skipped: usize,
     }
 
     thread_local! {
@@ -44,6 +45,12 @@ pub mod native {
     pub fn pop(n: usize) -> u128 {
         ST.with(|s| {
             let mut s = s.borrow_mut();
+            // 12-byte entries are environment records of float stubs (ln/log2): natively
+            // the real function runs instead, nothing is drawn.
+            while s.pos < s.script.len() && s.script[s.pos].len() == 12 {
+                s.pos += 1;
+                s.env_skipped += 1;
+            }
             if s.pos >= s.script.len() {
                 s.underrun = true;
                 drop(s);
@@ -68,7 +75,11 @@ pub mod native {
     pub fn peek_len() -> usize {
         ST.with(|s| {
             let s = s.borrow();
-            s.script.get(s.pos).map(|v| v.len()).unwrap_or(0)
+            let mut p = s.pos;
+            while p < s.script.len() && s.script[p].len() == 12 {
+                p += 1;
+            }
+            s.script.get(p).map(|v| v.len()).unwrap_or(0)
         })
     }
 
